@@ -277,6 +277,29 @@ pub fn run(cfg: &Cfg) -> Report {
             check(&mk(cancel, false), &mut rep, &mut states);
         }
     }
+    // (3) long pipelined bursts (17..120 small frames buffered at once or in a few big chunks): a receive
+    // abandoned at ANY point where it returns Pending - also one the transport did not cause (a cooperative
+    // yield inside the library) - must lose nothing
+    let mut rng = cfg.rng(73);
+    for i in 0..(if miri { cfg.n(2, 8) } else { cfg.n(400, 40_000) }) {
+        let n = if miri { rng.range(17, 24) } else { rng.range(17, if i % 4 == 0 { 120 } else { 48 }) };
+        let frames: Vec<Frame> = (0..n).map(|_| gen_frame(&mut rng, None)).collect();
+        let stream = stream_of(&frames);
+        let cuts = match i % 4 {
+            0 => vec![],
+            1 => (1..).map(|k| k * 1000).take_while(|c| *c < stream.len()).collect(),
+            2 => random_cuts(&mut rng, stream.len(), 3),
+            _ => random_cuts(&mut rng, stream.len(), 12),
+        };
+        let pendings: Vec<u8> = (0..cuts.len() + 1).map(|_| rng.below(2) as u8).collect();
+        let mk = |cancel: Vec<bool>, default_cancel: bool| Case { frames: frames.clone(), cuts: cuts.clone(), pendings: pendings.clone(), cancel, default_cancel, via_call_method: false };
+        check(&mk(vec![], true), &mut rep, &mut states);
+        check(&mk(vec![], false), &mut rep, &mut states);
+        let cancel: Vec<bool> = (0..64).map(|_| rng.chance(1, 2)).collect();
+        check(&mk(cancel, true), &mut rep, &mut states);
+        rep.count("long_burst_streams");
+        rep.max("max_frames_in_one_burst", n as u64);
+    }
     rep.add("distinct_hook_states(read_pos,msg_pos,buf_len)", states.len() as u64);
     rep
 }
